@@ -439,6 +439,27 @@ def checkpoint_rules(chk, S, r5):
     want1 = nf.add(nf.add(nf.norm(T.mk("attr", (ls.fields["step_from"], "t")) if isinstance(ls, Rec) else T.mk("attr", (T.mk("attr", (ls, "step_from")), "t"))), nf.norm(eps)), nf.norm(t_next), -1)
     r5.require(f1 is not None and f1[1] == "<" and f1[0] == want1, "RejectionLoop.loop is_before_t1 (pre-step)", "step_from.t + eps < t1",
                f"pre-step predicate is {T.show(cd['pred'])}; expected step_from.t + eps < t1", cd["site"])
+    # ---- R-C06-9: the conditional step itself and what is handed to it (not only its predicate)
+    r9 = chk.rule("R-C06-9", "the driver hands the caller's tolerances, damping and the current checkpoint to every attempt: arms and operands of the conditional step in RejectionLoop.loop; "
+                  "atol / rtol / damp of every estimate_error_norm and solver.step / solver.init call; the clip bound is the current checkpoint", floor=6)
+    atol_, rtol_, damp_ = A("atol"), A("rtol"), A("damp")
+    ops = cd.get("operands")
+    okop = isinstance(ops, list) and len(ops) == 1 and isinstance(ops[0], (tuple, list)) and len(ops[0]) == 5 and ops[0][0] is ls and ops[0][1] is t_next \
+        and ops[0][2] is atol_ and ops[0][3] is rtol_ and ops[0][4] is damp_
+    r9.require(okop, "RejectionLoop.loop conditional step operands", "(state0, t1, atol, rtol, damp) of this call", f"operands {T.show(ops, 3)}", cd["site"])
+    r9.require(cd.get("false") is ls, "RejectionLoop.loop conditional step: no step when the checkpoint is not ahead", "the loop state is returned unchanged", f"the arm for 'not before t1' returns {T.show(cd.get('false'), 3)}", cd["site"])
+    tr = cd.get("true")
+    whiles_rej = [e for e in events(it, "while") if not str(e["fn"]).endswith("advance")]
+    okt = isinstance(tr, Rec) and len(whiles_rej) == 1 and any(x is whiles_rej[0]["final"].fields.get("proposed") if isinstance(whiles_rej[0]["final"], Rec) else False for x in [tr.fields.get("step_from")])
+    r9.require(okt, "RejectionLoop.loop conditional step: one rejection loop when the checkpoint is ahead", "the new step_from is the accepted proposal of the rejection loop",
+               f"the arm for 'before t1' returns {T.show(tr, 3)}", cd["site"])
+    everything = [sc["new_carry"], sc["y"], sc["init"]] + [e["body"] for e in whiles_rej]
+    ests = mcalls(everything, "estimate_error_norm", A("error"))
+    r9.require(bool(ests) and all(e.kwargs.get("atol") is atol_ and e.kwargs.get("rtol") is rtol_ and e.kwargs.get("damp") is damp_ for e in ests), "estimate_error_norm receives the caller's atol, rtol, damp",
+               f"{len(ests)} call(s)", f"{[(T.show(e.kwargs.get('atol')), T.show(e.kwargs.get('rtol')), T.show(e.kwargs.get('damp'))) for e in ests]}", sc["site"])
+    steps = [m_ for m_ in mcalls(everything, "step", A("solver"))]
+    r9.require(bool(steps) and all(m_.kwargs.get("damp") is damp_ for m_ in steps), "solver.step receives the caller's damp", f"{len(steps)} call(s)", f"{[T.show(m_.kwargs.get('damp')) for m_ in steps]}", sc["site"])
+    r9.require(bool(inits) and all(m_.kwargs.get("damp") is damp_ and m_.kwargs.get("u") is A("u") for m_ in inits), "solver.init receives the caller's u and damp", "", f"{[T.show(m_, 3) for m_ in inits]}", sc["site"])
     # the state after the conditional step
     post = swi["operand"][0]
     S_t = T.mk("attr", (post.fields["step_from"], "t")) if isinstance(post, Rec) else None
